@@ -176,6 +176,7 @@ pub fn read(ctx: &Ctx, op: &Op) -> (String, i64, Value) {
                 .unwrap_or((0, String::new()));
                 (h, json!({"has": false, "id": style.abs(&id)}))
             }
+            "WebAnno" => (0, crate::webanno::webanno(ctx, a)),
             "Validate" => {
                 let total = store.validate_text(true);
                 let mut verdicts: Vec<String> = Vec::new();
@@ -417,4 +418,4 @@ pub fn read(ctx: &Ctx, op: &Op) -> (String, i64, Value) {
 
 pub const READ_EVENTS: &[&str] =
     &["Lookup", "TextSel", "AnnTextOf", "OffsetReport", "Utf8Byte", "ByteToChar", "TextOp", "TestRelation", "RelatedText",
-      "TestRelationRow", "RelatedRow", "Validate"];
+      "TestRelationRow", "RelatedRow", "Validate", "WebAnno"];
